@@ -1208,6 +1208,16 @@ func (g *Gen) Step() string {
 			return g.FirstCall()
 		}
 		g.Remember()
+		if w.Node.Probe != nil && rng.Chance(1, 3) {
+			// the database fails the flush at the end of the reorg to this block
+			w.ArmFlush = true
+			if _, err := w.GrowFromPool(rng.Intn(len(w.LastV1)+1), rng.Intn(len(w.LastV2)+1)); err != nil {
+				w.C.Oracle("pool-prefix-not-minable", "a block carrying a prefix of the reported pool is invalid on a linear twin: %v", err)
+			}
+			w.ArmFlush = false
+			w.Refresh()
+			return "block-from-pool-failed-flush"
+		}
 		if _, err := w.GrowFromPool(rng.Intn(len(w.LastV1)+1), rng.Intn(len(w.LastV2)+1)); err != nil {
 			w.C.Oracle("pool-prefix-not-minable", "a block carrying a prefix of the reported pool is invalid on a linear twin: %v", err)
 		}
